@@ -6,7 +6,7 @@ layer replaced by the calendar oracle (civil weeks: real calendar months; lunar 
 """
 import os
 from rlib import T, table, py, fn_site, Bottom, Unanalysable
-from calmodel import CalModel, synthetic_months
+from calmodel import CalModel, synthetic_months, with_lengths
 import calendar_oracle as CAL
 
 
@@ -29,7 +29,8 @@ def run(ctx):
     thorough = ctx.tier == 'thorough'
     yrs = list(range(2000, 2028)) if thorough else list(range(2020, 2028))
     months = [(y, m) for y in yrs for m in range(1, 13)] + [(1582, 9), (1582, 10), (1582, 11), (1900, 2), (9999, 11)]
-    cm = CalModel(I, {}, synthetic_months(2023, CAL.jdn(2023, 1, 22), 3, leap={2023: 2, 2025: 6}, prev_months=2, auto_leap=False))
+    # (one 28-day and one 31-day month: the library's own fitted new-moon table has a 28-day lunation, and week arithmetic must not assume 29 / 30)
+    cm = CalModel(I, {}, with_lengths(synthetic_months(2023, CAL.jdn(2023, 1, 22), 3, leap={2023: 2, 2025: 6}, prev_months=2, auto_leap=False), {(2024, 3): 28, (2024, 8): 31}))
 
     def month_days(y, m):
         return [CAL.jdn(y, m, d) for d in range(1, 32) if CAL.exists(y, m, d)]
